@@ -40,6 +40,7 @@ const P_TIME_BETWEEN_4_AND_100_SAMPLES: usize = 13;
 const P_MONOTONE_CHECKS: usize = 14;
 const P_TWIN_SAMPLES: usize = 15;
 const P_NEG_ZERO_TIME: usize = 16;
+const P_SWEEP_TRACES: usize = 17;
 
 const EPS24: f64 = 5.960464477539063e-8; // 2^-24
 
@@ -274,6 +275,7 @@ impl Engine for GlideEngine {
         "monotone_approach_checks",
         "twin_samples_compared",
         "negative_zero_time",
+        "sweep_traces",
     ];
     const NFAULT: usize = 7;
     const COMPONENTS: &'static [(&'static str, &'static str)] = &[
@@ -441,8 +443,12 @@ impl Engine for GlideEngine {
 
     fn finish(_ex: &mut Exec, _ctx: &mut Ctx) {}
 
-    fn run(rng: &mut Rng, prof: &Profile, _run: u64, sink: &mut Sink<Self>) {
-        random_run(rng, prof, sink);
+    fn run(rng: &mut Rng, prof: &Profile, run: u64, sink: &mut Sink<Self>) {
+        if !prof.chaos && run % 16 == 15 {
+            sweep_run(rng, sink);
+        } else {
+            random_run(rng, prof, sink);
+        }
     }
 
     fn cfg_json(c: &Cfg) -> J {
@@ -651,3 +657,49 @@ fn random_run(rng: &mut Rng, prof: &Profile, sink: &mut Sink<GlideEngine>) {
     }
     sink.end(t);
 }
+
+/// single-fault sweep: a seeded short glide; one set_time call (a menu of awkward times) or one input jump
+/// injected at every sample index of the glide
+fn sweep_run(rng: &mut Rng, sink: &mut Sink<GlideEngine>) {
+    let fs = if rng.chance(0.5) { *rng.pick(&FS_SPECIALS) } else { rng.log_uniform(100.0, 48000.0) as f32 };
+    let n = rng.range(6, 40) as f64; // glide length in samples
+    let t0 = (n / fs as f64) as f32;
+    let x0 = gen_input(rng);
+    let x1 = gen_input(rng);
+    let x2 = gen_input(rng);
+    let len = (n * 1.5) as u32 + 4;
+    let menu: Vec<f32> = vec![
+        0.0,
+        -0.0,
+        (1.0 / fs as f64) as f32,
+        (2.5 / fs as f64) as f32,
+        (3.7 / fs as f64) as f32,
+        (4.0 / fs as f64) as f32,
+        t0 * 0.5,
+        t0 * 2.0,
+        t0 + 0.049,
+        t0 + 0.051,
+        1.0,
+        10.0,
+        11.0,
+    ];
+    for pos in 0..=len {
+        for k in 0..=menu.len() {
+            let mut t = sink.begin(Cfg { fs });
+            t.ctx.probe(P_SWEEP_TRACES);
+            t.push(Ev::SetTime(t0.to_bits()));
+            t.push(Ev::Hold(x0.to_bits(), (3.0 * n) as u32 + 17));
+            if pos > 0 {
+                t.push(Ev::Hold(x1.to_bits(), pos));
+            }
+            if k < menu.len() {
+                t.push(Ev::SetTime(menu[k].to_bits()));
+                t.push(Ev::Hold(x1.to_bits(), len - pos + (3.0 * n) as u32 + 20));
+            } else {
+                t.push(Ev::Hold(x2.to_bits(), len - pos + (3.0 * n) as u32 + 20));
+            }
+            sink.end(t);
+        }
+    }
+}
+
